@@ -8,7 +8,11 @@ CONSTANTS
  Waits <- W1
  CancelOf <- CancelT
  Foreign = FALSE
- KindOf <- AllCalls
- LoadOf <- NoLoad
+ KindOf <- K_aaa
+ LoadOf <- L_222
  ClearInputs = TRUE
-INVARIANT NeverFlush
+INVARIANT Inv_C03
+INVARIANT Inv_C07
+INVARIANT Inv_C08
+INVARIANT DeliveredAtHorizon
+INVARIANT NoWaitStuck
